@@ -38,12 +38,13 @@ TRUSTED = [
     "functional extensionality (states are functions) - the only axiom",
 ]
 ASSUMES = [
-    "the model and the theorems describe the tree WITH fixes/C03-pauli-phase-marker and fixes/C03-string-basis-membership applied "
-    "(Gen/Decompose.v records both flags; on the unchanged tree the `_refuted` lemmas apply and the proofs do not go through)",
+    "the model and the theorems describe the tree WITH fixes/C03-pauli-phase-marker, C03-string-basis-membership, "
+    "C03-basis-rotations-only and C03-iswap-pass-first applied (Gen/Decompose.v records three flags and the pass order; on a tree "
+    "without them the `_refuted_unfixed` lemmas apply and the proofs do not go through)",
     "source gates of the resolvable kinds are well formed (arity of the kind, pairwise different qubits) and carry no classical controls",
     "parameters range over all reals through the phase-ring quantification (z_j = e^{i theta_j/4} arbitrary units)",
-    "in-basis theorem: basis_1q holds exactly the requested rotations (no IDLE entry, no duplicates) and the basis does not contain "
-    "both CSIGN and ISWAP (recorded known findings)",
+    "in-basis / success theorems: the accepted basis names at least one two-qubit gate (a list without any is accepted by the code "
+    "and leaves CNOT in place: outside 'valid choice', resolve_in_basis_refuted_no_2q)",
 ]
 
 ROT = ["RX", "RY", "RZ"]
@@ -406,6 +407,8 @@ EDGE_SPECS = [
     ["CNOT", "RX", "RY", "IDLE"], ["CSIGN", "RZ", "RX", "IDLE"], ["CNOT", "RX", "IDLE"], ["CSIGN", "ISWAP", "RX", "RY", "RZ"],
     ["CNOT", "CSIGN", "RX", "RY"], ["RZ", "RY", "SQRTSWAP", "CNOT"], ["CNOT", "RX", "RY", "RZ", "T"], ["CSIGN", "RX", "RZ", "R", "CS"],
     ["ISWAP", "SQRTSWAP", "SQRTISWAP", "RY", "RZ"], ["CNOT", "RX", "RY", "RZ", "BERKELEY"], ["SNOT", "CNOT", "RX", "RY"],
+    ["CNOT", "RX", "RY", "RY"], ["CNOT", "IDLE", "RZ", "RX", "IDLE"], ["CSIGN", "ISWAP", "RX", "RY"], ["CNOT", "RX", "RX", "RY"],
+    ["ISWAP", "CSIGN", "SQRTSWAP", "RY", "RZ"], ["IDLE", "ISWAP", "CSIGN"], ["CSIGN", "SQRTISWAP", "IDLE", "RX", "RZ"],
     "FOO", "RX", "", "CNOTX", "NOT", "SWAP", "cnot",
 ]
 
@@ -589,9 +592,10 @@ def correspond(ctx):
 
 
 def obligations(ctx):
-    # generated symbolic obligations behind the theorems: 1008 semantic checks (gate kind x canonical basis configuration, covering
-    # all 512 x 20 combinations through canon/agree), 92 valid configurations x 20 kinds for membership and for success, 20 rule checks
-    return 1008 + 2 * 20 * 92 + 20
+    # generated symbolic obligations behind the theorems: 204 distinct symbolic decompositions (covering all 512 configurations x
+    # 20 kinds through canon/agree/outs_eq), 124 valid configurations x 20 kinds for membership and for success, 20 rule checks,
+    # 8 rotation cases of the parser
+    return 204 + 2 * 20 * 124 + 20 + 8
 
 
 def classify(f):
